@@ -377,11 +377,44 @@ def d1_decompose_lossless(F, r):
     rd = F.find1("decompose_search::DecomposeSearch::refine_decomposed")
     fn = F.fns[rd]
     folds = [(bi, t) for bi, t in mir.calls(fn) if t["callee"].endswith("Iterator::fold") and mir.closure_arg_calls(F, fn, t, lambda c: c.endswith("decompose_search::merge_best"))]
-    if len(folds) != 1:
-        raise AnchorError(f"refine_decomposed: {len(folds)} merge folds")
-    bi, t = folds[0]
     chain = []
-    op = t["args"][0]
+    if len(folds) == 1:
+        bi, t = folds[0]
+        op = t["args"][0]
+    else:
+        # loop form: `for part in parts { acc = merge_best(part, ..) }` — one loop, advanced by one next(), left only when next() answers None, merge on every iteration
+        merges = [(bi, t) for bi, t in mir.calls(fn) if t["callee"].endswith("decompose_search::merge_best")]
+        if len(folds) > 1 or len(merges) != 1:
+            raise AnchorError(f"refine_decomposed: {len(folds)} merge folds, {len(merges)} direct merge calls")
+        mb, mt = merges[0]
+        loops = [(h, body) for h, body in mir.natural_loops(fn).items() if mb in body]
+        if len(loops) != 1:
+            raise AnchorError("refine_decomposed: merge_best is not called in exactly one loop")
+        h, body = loops[0]
+        nexts = [(bi, t) for bi, t in mir.calls(fn) if bi in body and t["callee"] == "core::iter::traits::iterator::Iterator::next"]
+        if len(nexts) != 1:
+            raise AnchorError("refine_decomposed: merge loop does not advance exactly one iterator")
+        nb, nt = nexts[0]
+        S = mir.succs(fn)
+        dropping_ty = [d for d in ("filter::", "filter_map::", "skip::", "take::", "skip_while::", "take_while::", "step_by::", "map_while::", "flatten::") if "adapters::" + d in (nt["ga"][0] if nt["ga"] else "")]
+        leaving = sorted({b for b in body for y in S[b] if y not in body})
+        guards = []
+        for b in sorted(body):
+            tt = fn["bbs"][b]["t"]
+            if tt["k"] == "switch" and (b in leaving or mir.dominates(fn, b, mb)):
+                # the loop's own test: a switch on the discriminant of next()'s result (anything else — also a test of the ELEMENT next() yielded — is a guard)
+                dd = [d for d in mir.defs(fn).get(tt["o"].get("l"), []) if d[0] == "s"] if mir.is_place(tt["o"]) else []
+                own = len(dd) == 1 and dd[0][3]["r"]["k"] == "discr" and mir.is_place(dd[0][3]["r"]["o"][0]) and not dd[0][3]["r"]["o"][0]["p"] \
+                    and dd[0][3]["r"]["o"][0]["l"] == nt["dest"]["l"]
+                if not own:
+                    guards.append(b)
+        early = [b for b in leaving if fn["bbs"][b]["t"]["k"] != "switch" or b in guards]
+        if dropping_ty or guards or early:
+            r.fail("refine_decomposed: parts -> merge", "the merge loop drops elements (" + ", ".join(dropping_ty + (["guarded merge / early exit"] if guards or early else [])) + "): a part that is skipped "
+                   "(e.g. when the quota is exhausted) is never merged back, its tours and jobs vanish from the offspring", F.loc(rd, mt["ln"]))
+            return
+        t = mt
+        op = nt["args"][0]
     D = mir.defs(fn)
     for _ in range(30):
         if not mir.is_place(op):
